@@ -346,6 +346,34 @@ theorem parseLine_numbers_then_names (nums : List Rat) (names : List String) :
 
 example : parseLine [.num 1.5, .num 0.03, .word "C1", .word "C2"] = ([1.5, 0.03], ["C1", "C2"]) := by decide +kernel
 
+/-! ### lexical layer -/
+
+/-- **free_number_is_numeric**: every token that is a number in SHELXL's free format (sign, leading '.', trailing '.',
+    exponent notation …) is classified as a numeric parameter by `Command._parse_line`, for all tokens.
+    (The value it denotes is computed by CPython's `float()`, trusted base; `Restraint._parse_line` classifies with
+    `float()` itself — both are compared with the spec by the harness on every spelling class, not proved.) -/
+theorem free_number_is_numeric (x : List Char) (h : isFreeNumber x = true) : cmdIsNum x = true := by
+  cases x with
+  | nil => simp [isFreeNumber] at h
+  | cons c t =>
+    by_cases hs : (c == '+' || c == '-') = true
+    · rcases (Bool.or_eq_true _ _).mp hs with h1 | h1 <;> simp [cmdIsNum, h1]
+    · simp only [isFreeNumber, hs, Bool.false_eq_true, if_false] at h
+      by_cases hd : c.isDigit = true
+      · simp [cmdIsNum, hd]
+      · simp only [unsignedOK, hd, Bool.false_eq_true, if_false, Bool.and_eq_true] at h
+        obtain ⟨hdot, hrest⟩ := h
+        cases t with
+        | nil => simp at hrest
+        | cons d r =>
+          simp only [Bool.and_eq_true] at hrest
+          simp [cmdIsNum, hdot, hrest.1]
+
+example : isFreeNumber "1.5E-2".toList = true ∧ isFreeNumber ".015".toList = true ∧ isFreeNumber "+.5".toList = true ∧
+    isFreeNumber "4.".toList = true ∧ isFreeNumber "-1.2e+1".toList = true ∧ isFreeNumber "007".toList = true := by decide +kernel
+example : isFreeNumber "C1".toList = false ∧ isFreeNumber "$1".toList = false ∧ isFreeNumber "1.5E".toList = false ∧
+    isFreeNumber ".".toList = false ∧ cmdIsNum "C1".toList = false ∧ cmdIsNum ">".toList = false := by decide +kernel
+
 /-! ### setter round trips -/
 
 /-- **ls_setter_roundtrip**: `cycles.number = n` (re-parse of the printed text) yields an object whose text denotes
